@@ -203,12 +203,14 @@ CLAIMED = {
              "basis projections — as _bs_rbasex computes it, for every angular order — equals 2∫ b_R(ρ)(r/ρ)ⁿ dz; Daun degree 3: the coded "
              "antiderivative of a cubic piece, p(j)[i] and q(j)[i] = Abel integrals of the cubic Hermite value / derivative functions (all i, j), "
              "the Thomas algorithm solves the (1, 4, 1) slope system, and the assembled matrix applied to any samples is, at every pixel and "
-             "every size, the Abel integral of the clamped cubic spline through them. Tie: Lean matrices "
+             "every size, the Abel integral of the clamped cubic spline through them; the two-point and three-point operators applied to any "
+             "samples are, at every pixel (axis row with Dasch's special cases included), the inverse Abel integral −(1/π)∫P′(ρ)/ρ dt along the line "
+             "of sight of the piecewise-linear / local quadratic interpolant (J, I0, I1 = shell integrals of 1/ρ and (ρ−j)/ρ; summation by parts). Tie: Lean matrices "
              "(onionW, twoPointD, threePointD, daun0-3, the _bs_rbasex model) vs the implementation's arrays entrywise. Oracle: scipy quadrature of the defining integrals "
              "for daun 0-3 (degree 3 via the clamped cubic Hermite spline), basex χ_k/ρ_k for several σ, rbasex p_{R;n}, and the "
              "inverse-Abel integrals of the two-/three-point local interpolants; onion D·W = 1.",
-        note="Partial: theorem-backed families are daun degrees 0-3, onion-peeling W and rbasex; basex and two/three-point are quadrature-backed "
-             "(1e-9) at special and random indices; scipy's solve_banded in daun degree 3 is modelled by the Thomas algorithm. Trusted: Lean kernel + standard axioms; scipy.integrate.quad; the reading of "
+        note="Partial: theorem-backed families are daun degrees 0-3, onion-peeling W, two-point, three-point and rbasex; basex is quadrature-backed "
+             "(1e-9) at special and random indices; the inverse Abel integral of the Dasch theorems is stated in line-of-sight form (x = √(r²+t²) not formalised); scipy's solve_banded in daun degree 3 is modelled by the Thomas algorithm. Trusted: Lean kernel + standard axioms; scipy.integrate.quad; the reading of "
              "each basis function from the documentation; rbasex P[n][0,0]=1 (n>0) is a documented convention, not an integral.",
         technique="Lean 4 proof (Lebesgue integral of indicators, FTC for the ramp, real square-root/log algebra) + entrywise differential check + quadrature oracle",
         design="§3 C09"),
